@@ -35,6 +35,7 @@ def plan(tier, seed):
         for op in sorted(OPS):
             rpt = OPS[op].get('repeat_q' if q else 'repeat_t', 250 if q else 1000)
             units.append({'kind': 'op', 'op': op, 'repeat': rpt if rep == 0 else min(rpt, 40), 'rep': rep, 'weight': 3})
+        units.append({'kind': 'ctx-reuse', 'count': 200 if q else 1500, 'fail_draws': [0, 1, 15, 31] if q else list(range(32)), 'rep': rep, 'weight': 4})
         for proto in ('tlcp', 'tls12', 'tls13'):
             for role in ('client', 'server'):
                 for mutual in (False, True):
@@ -545,6 +546,98 @@ def u_op(ctx, u):
     ctx.sample({'op': name, 'draws': nA, 'entropy_bytes': bytesA, 'repeat': len(seen)})
 
 
+def u_ctx_reuse(ctx, u):
+    """One signing context used for many signatures (init once; reset / update / finish): the context keeps a pool of
+    pre-computed nonces that is refilled from the entropy source when it runs dry.  Monitors: the nonce-dependent value r of
+    every signature of the SAME message is new (r = e + x1 with e fixed, so equal r means equal nonce), a failed draw during a
+    refill makes that finish fail, and signatures made after the failure still never repeat an earlier nonce."""
+    lib, sh, L = ctx.lib, ctx.shim, ctx.L
+    st = _sm2_key(ctx)
+    n = u['count']
+    name = 'sm2_sign_finish(one context)'
+
+    def new_ctx(seed):
+        sh.vf_entropy_seed(ctypes.c_uint64(seed))
+        sc = ctx.buf(L['sizeof_SM2_SIGN_CTX'], fill=0)
+        return sc if lib.sm2_sign_init(sc, st['key'], R.DEFAULT_ID, 16) == 1 else None
+
+    def finish(sc):
+        m = ctx.inbuf(b'the same message every time')
+        sig = ctx.buf(72, fill=0xA5)
+        sl = ctypes.c_size_t(0)
+        lib.sm2_sign_reset(sc)
+        lib.sm2_sign_update(sc, m, 27)
+        r = lib.sm2_sign_finish(sc, sig, ctypes.byref(sl))
+        out = sig.raw(min(sl.value, 72)) if r == 1 else None
+        m.free()
+        sig.free()
+        if out is None:
+            return None
+        p = R.sig_parse_strict(out)
+        return p[0] if p else out
+    base = 0x5151 + u['_i'] + (ctx.seed << 24)
+    sc = new_ctx(base)
+    if not ctx.check(sc is not None, 'clean:operation-failed-or-drew-no-entropy:' + name):
+        return
+    seen = {}
+    draws0 = sh.vf_entropy_draws()
+    for j in range(n):
+        ctx.begin(['ctx-reuse', j])
+        rv = finish(sc)
+        if not ctx.check(rv is not None, 'clean:operation-failed-or-drew-no-entropy:' + name, signature=j):
+            break
+        if rv in seen:
+            ctx.violation('reuse:ephemeral-value-repeated-within-one-stream:' + name, first=seen[rv], again=j, r=hex(rv) if isinstance(rv, int) else rv.hex())
+            break
+        seen[rv] = j
+        ctx.ok()
+    ctx.check(sh.vf_entropy_draws() > draws0 or n <= 32, 'clean:operation-failed-or-drew-no-entropy:' + name, note='no refill observed', signatures=n)
+    ctx.nontrivial(name, 'no-reuse', len(seen), base)
+    ctx.stat('ctx_reuse_signatures', len(seen))
+    sc.free()
+    # a draw of the refill fails
+    for i in u['fail_draws']:
+        sc = new_ctx(base + 1 + i)
+        if sc is None:
+            continue
+        seen = {}
+        bad = False
+        for j in range(32):                       # drain the pool filled by init
+            rv = finish(sc)
+            if rv is None or rv in seen:
+                bad = True
+                break
+            seen[rv] = j
+        if bad:
+            ctx.check(False, 'clean:operation-failed-or-drew-no-entropy:' + name, phase='drain')
+            sc.free()
+            continue
+        sh.vf_entropy_fail_at(sh.vf_entropy_draws() + i, 0)
+        ctx.begin(['ctx-reuse-fail', i])
+        rv = finish(sc)
+        failed = sh.vf_entropy_failed()
+        sh.vf_entropy_fail_at(-1, 0)
+        if failed:
+            ctx.check(rv is None, 'fail-open:success-despite-failed-draw:' + name, refill_draw=i)
+            ctx.stat('faults_injected')
+            ctx.nontrivial(name, 'refill-fail-at', i, base)
+        else:
+            ctx.stat('faults_not_reached')
+        # the source works again: later signatures must still be fresh
+        for j in range(40):
+            rv = finish(sc)
+            if rv is None:
+                ctx.stat('info_context_unusable_after_failed_refill')
+                break
+            if rv in seen:
+                ctx.violation('reuse:ephemeral-value-repeated-within-one-stream:' + name, after_failed_refill_draw=i, first=seen[rv], again=32 + j)
+                break
+            seen[rv] = 100 + j
+            ctx.ok()
+        sc.free()
+    ctx.sample({'op': name, 'signatures_on_one_context': n, 'refill_draws_failed': len(u['fail_draws'])})
+
+
 def u_handshake(ctx, u):
     proto = T.PROTOS[u['proto']]
     creds = T.Creds(ctx, 'c18-%s-%s' % (u['proto'], u['role']), 1, now=FIXED_TIME + 7200)
@@ -598,4 +691,4 @@ def u_handshake(ctx, u):
 
 
 def run_unit(ctx, u):
-    {'op': u_op, 'handshake': u_handshake}[u['kind']](ctx, u)
+    {'op': u_op, 'handshake': u_handshake, 'ctx-reuse': u_ctx_reuse}[u['kind']](ctx, u)
